@@ -202,8 +202,9 @@ func (e *Exec) appendBytes(buf, s Slice) Slice {
 	return e.appendOp(buf, s, nil).(Slice)
 }
 
-// TypeForOID: text and varchar are known (TextCodec, executed from pgx's own
-// code); the OIDs 0 and >= 100000 are unknown; other OIDs are not modelled.
+// TypeForOID: text, varchar, int2/4/8, bool and bytea are known (their codecs
+// are executed from pgx's own code); the OIDs 0 and >= 100000 are unknown;
+// other OIDs are not modelled.
 func modelPgTypeForOID(e *Exec, c *frame, fn *ssa.Function, a []Value) Value {
 	recv := a[0].(*Value)
 	if recv == nil {
@@ -211,25 +212,31 @@ func modelPgTypeForOID(e *Exec, c *frame, fn *ssa.Function, a []Value) Value {
 	}
 	e.noteRead(recv)
 	oid := a[1].(sym.Sc)
-	typeT := e.M.namedType("github.com/jackc/pgx/v5/pgtype", "Type")
-	codecT := e.M.namedType("github.com/jackc/pgx/v5/pgtype", "TextCodec")
-	mk := func(name string, id uint64) Value {
+	mk := func(codec, name string, id uint64) Value {
+		codecT := e.M.namedType("github.com/jackc/pgx/v5/pgtype", codec)
 		p := new(Value)
-		*p = Struct{Iface{T: codecT, V: Struct{}}, litString(name), sym.Const(32, id)}
+		*p = Struct{Iface{T: codecT, V: zero(codecT)}, litString(name), sym.Const(32, id)}
 		return Tuple{p, sym.Bool(true)}
 	}
-	_ = typeT
-	if e.Branch(sym.Eq(oid, sym.Const(32, oidText))) {
-		return mk("text", oidText)
+	// the codecs themselves are pgx's own code, executed from its SSA
+	known := []struct {
+		oid         uint64
+		codec, name string
+	}{
+		{oidText, "TextCodec", "text"}, {oidVarchar, "TextCodec", "varchar"},
+		{20, "Int8Codec", "int8"}, {21, "Int2Codec", "int2"}, {23, "Int4Codec", "int4"},
+		{16, "BoolCodec", "bool"}, {17, "ByteaCodec", "bytea"},
 	}
-	if e.Branch(sym.Eq(oid, sym.Const(32, oidVarchar))) {
-		return mk("varchar", oidVarchar)
+	for _, k := range known {
+		if e.Branch(sym.Eq(oid, sym.Const(32, k.oid))) {
+			return mk(k.codec, k.name, k.oid)
+		}
 	}
 	unknown := sym.Or(sym.Eq(oid, sym.Const(32, 0)), sym.Ule(sym.Const(32, 100000), oid))
 	if e.Branch(unknown) {
 		return Tuple{(*Value)(nil), sym.Bool(false)}
 	}
-	e.unsupported("pgtype.Map.TypeForOID model covers text/varchar and unknown OIDs only")
+	e.unsupported("pgtype.Map.TypeForOID model covers text/varchar/int2/int4/int8/bool/bytea and unknown OIDs only")
 	return nil
 }
 
